@@ -5,6 +5,10 @@ import os
 from checks import agg_common as A
 from vplib import coqtools, harness
 
+# vplib's header sets Printing Depth to 10^7, which makes Coq's printer ~4x slower on string results; strings are single
+# tokens, so the default depth prints them unchanged (checked: identical output)
+FAST_PRINT = "Set Printing Depth 50.\n"
+
 META = {
     "technique": "Coq proof over exact rationals (lane/chunk structure, Welford and EMA recurrences, three paths) + model/impl differential with a stated rounding tolerance + exact Fraction oracle",
     "design_ref": "DESIGN.md §7 C14",
@@ -41,7 +45,7 @@ def check(run):
                     "std DefaultHasher collision-freedom on the generated scalar values (count_distinct)"]
     run.assumptions += ["no infinities and no i64 overflow in the generated batches; |Int| <= 2^53 so Int -> f64 is exact",
                         "the differential run exercises the SIMD variant the CPU selects (is_x86_feature_detected!(\"avx2\"))"]
-    binpath = A.build_all(run, ["theories/Agg/Props.vo"], "C14.v")
+    binpath = A.build_all(run, ["theories/Agg/Props.vo", "theories/Agg/Run.vo"], "C14.v")
     if binpath is None:
         return
     cases = cases_for(run)
@@ -49,7 +53,7 @@ def check(run):
     avx = bool(answers[0].get("avx2", True)) if answers else True
     run.extra["simd_variant"] = "avx2" if avx else "scalar"
     try:
-        model = coqtools.coq_eval("C14", A.IMPORTS, [A.g_case(avx, c["events"], c["aggs"], k) for k, c in enumerate(cases)], shard=max(8, len(cases) // 16 + 1))
+        model = coqtools.coq_eval("C14", A.IMPORTS, [A.g_case(avx, c["events"], c["aggs"], k) for k, c in enumerate(cases)], shard=max(8, len(cases) // 16 + 1), prelude=FAST_PRINT)
     except RuntimeError as e:
         run.tie_broken("model evaluation (coqc cases)", str(e))
         model = [None] * len(cases)
